@@ -12,4 +12,28 @@ def run(res, args):
                     "position of every call kind's answer, every prefix of every valid answer followed by silence (EOF mode and no-progress "
                     "mode), every response nibble with empty and short payloads, random byte streams with random fault schedules, "
                     "noise and lines longer than the 4096-byte reader buffer.",
-                    partial=["register-API calls (connect, read-all) are covered by C10/C11"])
+                    partial=["streaming and cancellation of the register API are C10's subject"])
+    # "every driver and register-API call returns normally": connecting with EVERY device id, the malformed / silent /
+    # noisy connect scenarios, and the register reads of C09 must not panic either
+    import re
+    from lib import apirun
+    from lib.common import Broken
+    napi = npanic = 0
+    for fam in ("C11", "C09"):
+        try:
+            a = apirun.run(res.tier, res.seed, fam)
+        except Broken as b:
+            res.broken.append(b)
+            continue
+        for cl, ol in zip(a["lines"], a["impl"]):
+            m = re.search(r" R=(\S+)", ol)
+            if not m:
+                continue
+            napi += 1
+            toks = m.group(1).split(";")
+            if "P" in toks or "H" in toks:
+                npanic += 1
+                if npanic <= 5:
+                    res.add_violation("a register-API call panics (or never returns)", key="C06:api:" + re.sub(r"^\S+ ", "", cl)[:120],
+                                      input=cl, observed=ol[:400])
+    res.cov["register_api_cases_without_panic"] = napi - npanic
